@@ -37,7 +37,7 @@ SAN_GATE = ("-O1 -g -fno-omit-frame-pointer -fsanitize=address,undefined "
 SAN_RECOVER = ("-O1 -g -fno-omit-frame-pointer -fsanitize=address,undefined "
                "-fsanitize-recover=address,undefined -D%s" % GUARD)
 if COV:
-    SAN_GATE += " --coverage -fprofile-update=atomic"
+    SAN_GATE += " --coverage"
 XFLAGS = os.environ.get("VF_XFLAGS", "")
 if XFLAGS and not (ALT or COV):
     # experiments with additional instrumentation flags get their own build + evidence area
